@@ -5,10 +5,11 @@ REASM = "props/reasm"
 prop("C03", [
     S(REASM, "^TestC03Regress$", kind="plain"),
     S(REASM, "^TestC03$", q=20000, t=200000, shards=16),
+    S(REASM, "^TestC03Large$", kind="plain"),
 ], ["sequence numbers of a history lie in one 2^24 window (stated by the property)",
     "'in-order' means after the last in-order delivered event (C02's notion of a late arrival)",
     "record types that end an event: PROCTITLE, <=1299, >=2100; EOE completes a buffered event"],
-   nontrivial_classes=["history-with-loss", "history-with-late-or-duplicate-delivery", "history-crossing-seam"])
+   nontrivial_classes=["history-with-loss", "history-with-late-or-duplicate-delivery", "history-crossing-seam", "many-events-delivered-by-one-call"])
 
 REASM_ASSUME = ["record types that end an event: PROCTITLE, <=1299, >=2100; EOE completes a buffered event",
                 "the harness' Stream recorder and bookkeeping are trusted; the Reassembler is driven from one goroutine"]
@@ -16,12 +17,14 @@ REASM_ASSUME = ["record types that end an event: PROCTITLE, <=1299, >=2100; EOE 
 prop("C01", [
     S(REASM, "^TestC01Regress$", kind="plain"),
     S(REASM, "^TestC01$", q=20000, t=200000, shards=16),
+    S(REASM, "^TestC01Large$", kind="plain"),
 ], REASM_ASSUME, nontrivial_classes=["history-with-eviction-of-incomplete-event", "history-with-reused-sequence",
                                      "history-with-Push-parsed-record", "history-with-EOE-completion", "history-with-reentrant-calls"])
 
 prop("C02", [
     S(REASM, "^TestC02Regress$", kind="plain"),
     S(REASM, "^TestC02$", q=20000, t=200000, shards=16),
+    S(REASM, "^TestC02Large$", kind="plain"),
 ], REASM_ASSUME + ["sequence numbers of a history lie in one 2^24 window (stated by the property)"],
    nontrivial_classes=["history-with-out-of-order-buffering", "history-straddling-seam", "history-with-late-arrival"])
 
@@ -30,6 +33,7 @@ prop("C10", [
     S(REASM, "^TestC10$", q=20000, t=200000, shards=16),
     S(REASM, "^TestC10Timed$", q=3000, t=40000, shards=16),
     S(REASM, "^TestC10Large$", kind="plain", timeout_t=3000),
+    S(REASM, "^TestC10HeldBack$", kind="plain"),
 ], REASM_ASSUME + ["TestC10: timeout is 1h or more so that expiry cannot be a cause (as the property's quantifier says)",
                    "TestC10Timed: finite timeouts and real sleeps; only 'the timeout had definitely not elapsed' is asserted (harness clock read around every call)",
                    "sequence numbers of a history lie in one 2^24 window"],
@@ -37,13 +41,15 @@ prop("C10", [
                        "timed-history-with-delivery-after-possible-expiry", "large-buffer-history"])
 
 prop("C19", [
-    S(REASM, "^TestC19Regress$", kind="plain"),
+    S(REASM, "^TestC19(StreamCloses)?Regress$", kind="plain"),
     S(REASM, "^TestC19$", q=4000, t=40000, shards=16),
+    S(REASM, "^TestC19StreamCloses$", q=3000, t=40000, shards=16),
     S(REASM, "^TestC19Large$", kind="plain", timeout_t=3000),
 ], REASM_ASSUME + ["time is real: expiry is decided three-valued from harness clock brackets; only definite answers are asserted",
                    "what a push made after Close does itself is not asserted (only that later Maintain/Close fail and deliver nothing)"],
    nontrivial_classes=["history-with-timeout-only-delivery", "history-with-call-after-close", "history-with-push-after-close",
-                       "decision-definitely-expired", "decision-definitely-live", "large-stale-buffer-history"])
+                       "decision-definitely-expired", "decision-definitely-live", "large-stale-buffer-history",
+                       "stream-closes-while-call-has-more-to-deliver-and-2-events-are-buffered"])
 
 PARSE = "props/parse"
 
@@ -114,7 +120,7 @@ prop("C13", [
 ], ["typed-nil rule pointers are not Rule values and are not passed",
     "allocation bound: 1 MiB + 64 x input length per call, measured with runtime/metrics in a single-threaded section",
     "absence of panics is sampled, not proved; hang watchdog 30 s per case"],
-   nontrivial_classes=["kind-build", "kind-decode", "kind-parse", "value-sweep", "passed-first-stage-build", "passed-first-stage-decode", "passed-first-stage-parse"])
+   nontrivial_classes=["kind-build", "kind-decode", "kind-parse", "value-sweep", "arch-x-syscall-sweep", "passed-first-stage-build", "passed-first-stage-decode", "passed-first-stage-parse"])
 
 prop("C14", [
     S(RULES, "^TestC14Regress$", kind="plain"),
@@ -208,7 +214,7 @@ prop("C20", [
     S(TABLES, "^TestC20", kind="plain"),
 ], ["internal consistency only, as the property states; agreement with the kernel headers is informational here and enforced by C06 / C12 / C16",
     "the name->type table is read from the generated source file of the working tree (it is not exported)"],
-   nontrivial_classes=["table-record-type", "table-record-type-name", "table-errno-number", "table-errno-name", "table-arch", "table-syscall",
+   nontrivial_classes=["table-normalization-compound", "table-record-type", "table-record-type-name", "table-errno-number", "table-errno-name", "table-arch", "table-syscall",
                        "table-rule-field", "table-rule-operator", "table-rule-comparison", "table-normalization-syscall", "table-normalization-record-type"])
 
 prop("C11", [
